@@ -80,6 +80,9 @@ func (g *Gauge) Enter() {
 func (g *Gauge) Exit()       { atomic.AddInt64(&g.cur, -1) }
 func (g *Gauge) Peak() int64 { return atomic.LoadInt64(&g.peak) }
 
+// Cur is the number of holders inside the guarded region right now.
+func (g *Gauge) Cur() int64 { return atomic.LoadInt64(&g.cur) }
+
 // Inside is the body of every guarded region of the concurrent runs: stamp enter, gauge, hold,
 // stamp exit (normal or panic) — and panic if asked to.
 func Inside(h *Hist, ga *Gauge, r *verifh.Rng, gid, tid, panPct int) {
@@ -87,12 +90,13 @@ func Inside(h *Hist, ga *Gauge, r *verifh.Rng, gid, tid, panPct int) {
 	h.recAny(gid, "+"+id)
 	ga.Enter()
 	Hold(r)
-	ga.Exit()
 	if r.Intn(100) < panPct {
 		h.recAny(gid, "!"+id)
+		ga.Exit()
 		panic("c05: holder panics")
 	}
 	h.recAny(gid, "-"+id)
+	ga.Exit()
 }
 
 func (h *Hist) recAny(gid int, tok string) {
